@@ -257,7 +257,9 @@ func (d *chainDesc) forge() []*x509.Certificate {
 			if sk == nil {
 				sk = pki.K(d.keys[i])
 			}
-			certs[i] = pki.ReorderExtensions(certs[i], sk, pki.ExtOrder(o))
+			if sk.IsRSA() || sk.IsEC() { // (re-signing is implemented for these; an Ed25519-signed certificate keeps its order)
+				certs[i] = pki.ReorderExtensions(certs[i], sk, pki.ExtOrder(o))
+			}
 		}
 		if d.badSig[i] {
 			der := append([]byte(nil), certs[i].DER...)
